@@ -229,6 +229,8 @@ def check_result(res, rcat, logged, where):
             got = '#%d' % origin(res)
             OUT['objects_identified'] += 1
             POOL.setdefault(rcat['class'], []).append(res)
+            if rcat.get('mode') in ('value', 'ref'):
+                EXACT.setdefault(rcat['class'], []).append(res)     # a copy made by the wrapper: exactly that class
         except TypeError:
             got = 'unidentifiable %r' % type(res)
     if got != logged:
@@ -370,15 +372,39 @@ def run():
                      expected=a['value'], actual=repr(v))
         except AttributeError:
             viol('module attribute missing', path=a['py'])
-    # classes in declaration order
+    # phase 1: constructors, static methods and free functions (they also supply instances of classes that have
+    # no constructor); phase 2: everything that needs a receiver
+    for phase in (1, 2):
+        _classes(phase)
+        if phase == 1:
+            _functions()
+
+
+def _functions():
+    for f in plan['functions']:
+        try:
+            fn = resolve(f['py'])
+        except AttributeError:
+            viol('function binding missing', path=f['py'])
+            continue
+        call_variants(fn, f['args'], f['entity'], 'fn', '.'.join(f['py']), f['ret'])
+
+
+def _classes(phase):
     for c in plan['classes']:
         try:
             cls = resolve(c['py'])
         except AttributeError:
-            viol('class not found in module', path=c['py'])
+            if phase == 1:
+                viol('class not found in module', path=c['py'])
             continue
+        _class(c, cls, phase)
+
+
+def _class(c, cls, phase):
+    if True:
         where = '.'.join(c['py'])
-        if c['base'] and c['base'] in plan['class_table']:
+        if phase == 1 and c['base'] and c['base'] in plan['class_table']:
             OUT['checked'] += 1
             try:
                 base = resolve(plan['class_table'][c['base']]['py'])
@@ -386,7 +412,7 @@ def run():
                     viol('derived class is not registered with its declared base', cls=where, base=c['base'])
             except AttributeError:
                 pass
-        for ct in c['ctors']:
+        for ct in (c['ctors'] if phase == 1 else []):
             def make(*a, **k):
                 o = cls(*a, **k)
                 POOL.setdefault(c['class'], []).append(o)
@@ -395,7 +421,7 @@ def run():
             # constructors: entity Class::Class, receiver = the new object -> unknown tag: pass None
             call_ctor(make, ct, where)
         objs = None
-        for meth in c['methods']:
+        for meth in (c['methods'] if phase == 2 else []):
             try:
                 obj = make_object(c['class'], exact=True)
             except NoValue as e:
@@ -413,13 +439,13 @@ def run():
                     TRACE()
                 except Exception:
                     pass
-        for st in c['statics']:
+        for st in (c['statics'] if phase == 1 else []):
             fn = getattr(cls, st['py'], None)
             if fn is None:
                 viol('static method binding missing', cls=where, name=st['py'])
                 continue
             call_variants(fn, st['args'], st['entity'], 'static', where + '.' + st['py'], st['ret'])
-        for p in c['props']:
+        for p in (c['props'] if phase == 2 else []):
             if unexposed(p['type']):
                 skip('property type outside the top namespace')
                 continue
@@ -468,7 +494,7 @@ def run():
                     if not same:
                         viol('property read-back differs from the value written', cls=where, name=p['name'],
                              wrote=repr(v)[:60], read=repr(back)[:60])
-        for op in c['ops']:
+        for op in (c['ops'] if phase == 2 else []):
             try:
                 a = make_object(c['class'], exact=True)
             except NoValue:
@@ -506,13 +532,6 @@ def run():
             ret = expect_trace(TRACE(), op['entity'], '#%d' % origin(a), sers, where + ' operator' + sym)
             if ret is not None:
                 check_result(res, op['ret'], ret, where + ' operator' + sym)
-    for f in plan['functions']:
-        try:
-            fn = resolve(f['py'])
-        except AttributeError:
-            viol('function binding missing', path=f['py'])
-            continue
-        call_variants(fn, f['args'], f['entity'], 'fn', '.'.join(f['py']), f['ret'])
 
 
 def call_ctor(make, ct, where):
